@@ -144,7 +144,8 @@ def run(ctx):
     for n, (i, a, obj) in enumerate(insts):
         refs[n] = ref_bytes(cl.cls(i), obj)
     nh = 120 if thorough else 30
-    for h in range(nh):
+    only_threads = os.environ.get("C19_ONLY_THREADS") == "1"     # (diagnostic switch, see DESIGN §10.4)
+    for h in range(0 if only_threads else nh):
         clear_caches()
         ops = []
         for n, (i, a, obj) in enumerate(insts):
@@ -171,7 +172,7 @@ def run(ctx):
                                   "class": cl.keys[i], "history": [(o, cl.keys[insts[m][0]]) for o, m in ops][:40]})
         nontrivial += 1
     # ---------- (2) a stream failure at every position k, then reuse of the same cached callable ---
-    for n, (i, a, obj) in enumerate(insts[: (len(insts) if thorough else 14)]):
+    for n, (i, a, obj) in enumerate([] if only_threads else insts[: (len(insts) if thorough else 14)]):
         c = cl.cls(i)
         clear_caches()
         w, r = entity_writer(c), entity_reader(c)
@@ -216,7 +217,7 @@ def run(ctx):
     sys.path.insert(0, os.path.dirname(os.path.abspath(__file__)))
     from c07 import spoil
     multi = [i for i in range(len(cl)) if sum(1 for f in _dc.fields(cl.cls(i)) if "tag" in f.metadata) >= 2]
-    for i, a, obj in codec.gen_instances(cl, multi[: (len(multi) if thorough else 12)], 3, rng, big_strings=False):
+    for i, a, obj in ([] if only_threads else codec.gen_instances(cl, multi[: (len(multi) if thorough else 12)], 3, rng, big_strings=False)):
         c = cl.cls(i)
         clear_caches()
         w = entity_writer(c)
@@ -250,6 +251,16 @@ def run(ctx):
             return values.render(values.abstract(entity_reader(c)(io.BytesIO(data))))
         return job
     scen.append(("same class, two writers", enc_job(cl.cls(i1), o1), enc_job(cl.cls(i1), o1), b1.hex(), b1.hex()))
+    # the same class with several tagged fields set, two different values: the writers stage tagged
+    # fields in a scratch buffer, which must not be shared between calls
+    mt = [n for n, (i, _, _) in enumerate(insts) if cl.keys[i] == "kio.schema.api_versions.v4.response:ApiVersionsResponse"]
+    if len(mt) >= 2:
+        g = codec.gen_instances(cl, [insts[mt[0]][0]], 6, random.Random(ctx.seed + 99), big_strings=False)
+        g = [x for x in g if sum(1 for f, v in zip(_dc.fields(x[2]), x[1][1]) if "tag" in f.metadata and values.abstract(f.default) != v) >= 2][:2]
+        if len(g) == 2:
+            (ia, aa, oa), (ib, ab, ob) = g
+            scen.append(("one multi-tag class, two values", enc_job(cl.cls(ia), oa), enc_job(cl.cls(ib), ob),
+                         ref_bytes(cl.cls(ia), oa).hex(), ref_bytes(cl.cls(ib), ob).hex()))
     scen.append(("nested-sharing classes", enc_job(cl.cls(i2), o2), enc_job(cl.cls(i3), o3), b2.hex(), b3.hex()))
     scen.append(("reader vs writer of one class", dec_job(cl.cls(i2), b2), enc_job(cl.cls(i2), o2),
                  values.render(values.abstract(o2)), b2.hex()))
